@@ -346,6 +346,29 @@ StrProgs(u) ==
        PV(3, [k |-> "in", a |-> Id("s"), b |-> Id("s"), neg |-> FALSE]), ES(I(0))>>}
     : cps \in UniStrings}
 
+\* a list changed by the body of the loop that iterates it: the iteration reads the list anew at every step (items
+\* appended are visited, items popped are not, a write to an element not yet reached is seen), while rebinding the
+\* NAME does not change what is iterated
+PopCps == <<112, 111, 112>>
+ExtendCps == <<101, 120, 116, 101, 110, 100>>
+ReverseCps == <<114, 101, 118, 101, 114, 115, 101>>
+MethodS(obj, name, cps, args) == ES(CallE(AttrE(Id(obj), name, cps), args))
+IterMutProg(style, mut, at) ==
+  LET vars == CASE style = "range2" -> <<"i", "v">> [] style = "range1" -> <<"i">> [] OTHER -> <<"v">>
+      obs == ListE([k \in 1..Len(vars) |-> Id(vars[k])])
+      m == CASE mut = "append" -> MethodS("l", "append", AppendCps, <<I(9)>>)
+             [] mut = "pop" -> MethodS("l", "pop", PopCps, <<>>)
+             [] mut = "extend" -> MethodS("l", "extend", ExtendCps, <<ListE(<<I(8), I(9)>>)>>)
+             [] mut = "reverse" -> MethodS("l", "reverse", ReverseCps, <<>>)
+             [] mut = "setlast" -> SetIdxS(Id("l"), I(3), "=", I(7))
+             [] mut = "rebind" -> AssignS("l", "=", ListE(<<I(0)>>))
+      body == <<PV(1, obs), AssignS("n", "+=", I(1)), ES(IfE(Bin("==", Id("n"), I(at)), <<m>>))>>
+  IN <<VarS("l", ListE(<<I(1), I(2), I(3), I(4)>>)), VarS("n", I(0)),
+       [k |-> "range", style |-> (IF style = "in" THEN "in" ELSE "range"), vars |-> vars, c |-> Id("l"), body |-> body],
+       PV(2, ListE(<<Id("l"), Id("n")>>)), ES(I(0))>>
+IterMuts(u) == {IterMutProg(style, mut, at) : style \in {"range2", "range1", "in"},
+                  mut \in {"append", "pop", "extend", "reverse", "setlast", "rebind"}, at \in {1, 2, 4}}
+
 \* only well-scoped scenarios: the innermost function of a chain of depth d can see v_1 .. v_d
 Closures(maxd) == UNION {{ClosureProg(d, rd, wr, route, twice, ps[1], ps[2]) :
                             rd \in 1..d, wr \in 1..d, route \in Routes, twice \in BOOLEAN,
